@@ -115,3 +115,21 @@ Proof.
       change (assoc_str scan_kinds (lower_ascii s)) with r end;
     cbv iota beta; rewrite Hd; reflexivity.
 Qed.
+
+(* ---------- Diff (augmented diff: create / modify / delete actions) ---------- *)
+From Verif Require Import Codec.ProofsDiff.
+
+Lemma diff_statics :
+  lookup_type gen_schema "Diff" = Some (d_of "Diff") /\ lookup_type gen_schema "Action" = Some (d_of "Action")
+  /\ diff_static gen_schema 11 (d_of "Diff") = true /\ action_static gen_schema (d_of "Action") = true
+  /\ osm_static gen_schema 11 (d_of "OSM") = true /\ elems_static gen_schema 11 (d_of "OSM") = true.
+Proof. repeat split; vm_compute; reflexivity. Qed.
+
+Theorem roundtrip_Diff : forall v,
+  wfb gen_schema "Diff" v = true ->
+  exists e, encode1 gen_schema "Diff" v = Ok e /\ decode gen_schema "Diff" e = Ok v /\ xname e = "osm".
+Proof.
+  intros v Hwf. destruct containers_static as (H1 & H2 & H3 & H4 & H5 & H6).
+  destruct diff_statics as (D1 & D2 & D3 & D4 & D5 & D6).
+  exact (roundtrip_diff gen_schema (d_of "Diff") (d_of "Action") (d_of "OSM") v D1 D3 D2 D4 H1 H3 D5 D6 Hwf).
+Qed.
